@@ -428,16 +428,14 @@ impl SwarmDriver {
                         for sender in senders {
                             let new_accumulated_record = new_accumulated_record.clone();
 
-                            sender
-                                .send(Ok(new_accumulated_record))
-                                .map_err(|_| NetworkError::InternalMsgChannelDropped)?;
+                            // a caller that has gone away does not keep the others from their outcome
+                            let _ = sender.send(Ok(new_accumulated_record));
                         }
                     } else {
                         for sender in senders {
                             let result_map = result_map.clone();
-                            sender
-                                .send(Err(GetRecordError::SplitRecord { result_map }))
-                                .map_err(|_| NetworkError::InternalMsgChannelDropped)?;
+                            // a caller that has gone away does not keep the others from their outcome
+                            let _ = sender.send(Err(GetRecordError::SplitRecord { result_map }));
                         }
                     }
                 }
@@ -481,11 +479,10 @@ impl SwarmDriver {
                     "Multiple versions ({num_of_versions}) found for record {data_key_address:?}!"
                 );
                 for sender in senders {
-                    sender
-                        .send(Err(GetRecordError::SplitRecord {
-                            result_map: result_map.clone(),
-                        }))
-                        .map_err(|_| NetworkError::InternalMsgChannelDropped)?;
+                    // a caller that has gone away does not keep the others from their outcome
+                    let _ = sender.send(Err(GetRecordError::SplitRecord {
+                        result_map: result_map.clone(),
+                    }));
                 }
 
                 return Ok(());
@@ -495,9 +492,8 @@ impl SwarmDriver {
             if num_of_versions == 0 {
                 debug!("No versions found for record {data_key_address:?}!");
                 for sender in senders {
-                    sender
-                        .send(Err(GetRecordError::RecordNotFound))
-                        .map_err(|_| NetworkError::InternalMsgChannelDropped)?;
+                    // a caller that has gone away does not keep the others from their outcome
+                    let _ = sender.send(Err(GetRecordError::RecordNotFound));
                 }
                 return Ok(());
             }
@@ -521,9 +517,8 @@ impl SwarmDriver {
                     Err(GetRecordError::RecordNotFound)
                 };
                 for sender in senders {
-                    sender
-                        .send(result.clone())
-                        .map_err(|_| NetworkError::InternalMsgChannelDropped)?;
+                    // a caller that has gone away does not keep the others from their outcome
+                    let _ = sender.send(result.clone());
                 }
             }
         } else {
@@ -564,9 +559,8 @@ impl SwarmDriver {
                     debug!("Get record task {query_id:?} failed with {:?} expected holders not responded, error {get_record_err:?}", cfg.expected_holders);
                 }
                 for sender in senders {
-                    sender
-                        .send(Err(GetRecordError::RecordNotFound))
-                        .map_err(|_| NetworkError::InternalMsgChannelDropped)?;
+                    // a caller that has gone away does not keep the others from their outcome
+                    let _ = sender.send(Err(GetRecordError::RecordNotFound));
                 }
             }
             kad::GetRecordError::Timeout { key } => {
@@ -593,9 +587,8 @@ impl SwarmDriver {
                         "Get record task {query_id:?} for {pretty_key:?} timed out with split result map"
                     );
                     for sender in senders {
-                        sender
-                            .send(Err(GetRecordError::QueryTimeout))
-                            .map_err(|_| NetworkError::InternalMsgChannelDropped)?;
+                        // a caller that has gone away does not keep the others from their outcome
+                        let _ = sender.send(Err(GetRecordError::QueryTimeout));
                     }
 
                     return Ok(());
@@ -612,9 +605,8 @@ impl SwarmDriver {
                 warn!("Get record task {query_id:?} for {pretty_key:?} returned insufficient responses. {:?} did not return record", cfg.expected_holders);
                 for sender in senders {
                     // Otherwise report the timeout
-                    sender
-                        .send(Err(GetRecordError::QueryTimeout))
-                        .map_err(|_| NetworkError::InternalMsgChannelDropped)?;
+                    // a caller that has gone away does not keep the others from their outcome
+                    let _ = sender.send(Err(GetRecordError::QueryTimeout));
                 }
             }
         }
@@ -634,9 +626,8 @@ impl SwarmDriver {
         };
 
         for sender in senders {
-            sender
-                .send(res.clone())
-                .map_err(|_| NetworkError::InternalMsgChannelDropped)?;
+            // a caller that has gone away does not keep the others from their outcome
+            let _ = sender.send(res.clone());
         }
 
         Ok(())
